@@ -44,7 +44,10 @@ func verifFlagString(name string, value string, usage string) *string {
 	v := verifStringFlag(value)
 	return &v
 }
-func verifFlagInt(name string, value int, usage string) *int { v := verifapi.Int("flag.int"); return &v }
+func verifFlagInt(name string, value int, usage string) *int {
+	v := verifapi.Int("flag.int")
+	return &v
+}
 func verifFlagUint(name string, value uint, usage string) *uint {
 	v := uint(verifapi.Uint64("flag.uint"))
 	return &v
